@@ -755,6 +755,9 @@ def transform_C16(doc):
             new = r.sample(range(1, 10 ** 6), len(labels))
         else:
             new = ["q%d" % v for v in r.sample(range(1000), len(labels))]
+            if t["salt"] % 4 == 0:
+                new = gen.hyphen_labels(len(labels))
+                r.shuffle(new)
         mp = dict(zip(labels, new))
         w = d2["world"]
         w["nodes"] = [[mp[l], p, [mp[x] for x in nb]] for l, p, nb in w["nodes"]]
